@@ -40,7 +40,7 @@ def derived_objects(ctx, ops):
     allops = ops + S.FIT_OPS
     inapplicable = 0
     for acts, dims in progs:
-        if ctx.quick and len(acts) == 2 and hash((acts, ctx.seed)) % 12:
+        if ctx.quick and len(acts) == 2 and hash((acts, ctx.seed)) % 16:
             continue
         try:
             x = base
@@ -55,7 +55,7 @@ def derived_objects(ctx, ops):
             continue
         f = S.fresh(x)
         for op in allops:
-            if ctx.quick and hash((acts, op, ctx.seed)) % (2 if len(acts) == 1 else 4):
+            if ctx.quick and hash((acts, op, ctx.seed)) % (3 if len(acts) == 1 else 4):
                 continue
             try:
                 exp, eerr = S.project(S.call(f, op)), None
